@@ -3,6 +3,6 @@
         ensures
             (r is Ok) == (utf8_decode(self.content.data@) is Some), // @ok_iff_valid_utf8
             r is Ok ==> r->Ok_0@ == utf8_decode(self.content.data@)->Some_0, // @text_unaltered
-            r is Err ==> status_of(r->Err_0) == 400, // @invalid_utf8_refused_with_400
+            r is Err ==> is_client_code(status_of(r->Err_0)), // @invalid_utf8_refused_with_400
 //@ closure 0
-|e: Utf8Error| -> (h: HttpError) ensures status_of(h) == 400
+|e: Utf8Error| -> (h: HttpError) ensures is_client_code(status_of(h))
